@@ -317,7 +317,10 @@ def check_auth(request, response, realm, users, encrypt=None):
             return False
 
         if not encrypt:
-            encrypt = _httpauth.DIGEST_AUTH_ENCODERS[_httpauth.MD5]
+            md5 = _httpauth.DIGEST_AUTH_ENCODERS[_httpauth.MD5]
+
+            def encrypt(val):
+                return md5(val.encode('utf-8'))
 
         if isinstance(users, Callable):
             try:
